@@ -6,6 +6,7 @@ verus! {
 //@include shims/core.rs
 //@include shims/alloc_free.rs
 //@include shims/cursor.rs
+//@include shims/cursor_write.rs
 //@include spec/hash.rs
 //@enum BSVErrors @ src/errors/mod.rs
 //@enum SigningHash @ src/ecdsa/mod.rs clone copy partialeq eq
@@ -61,6 +62,8 @@ impl ExtendedPublicKey {
 //@fn ExtendedPublicKey::from_xpriv
 //@fn ExtendedPublicKey::derive_impl
 //@wrapper ExtendedPublicKey::derive @ src/keypair/extended_public_key.rs = ExtendedPublicKey::derive_impl
+//@fn ExtendedPublicKey::to_string_impl
+//@wrapper ExtendedPublicKey::to_string @ src/keypair/extended_public_key.rs = ExtendedPublicKey::to_string_impl
 //@fn ExtendedPublicKey::from_string_impl
 //@wrapper ExtendedPublicKey::from_string @ src/keypair/extended_public_key.rs = ExtendedPublicKey::from_string_impl
 //@fn ExtendedPublicKey::parse_str_to_idx
